@@ -104,7 +104,7 @@ def c01_lines(rng, names):
 def run_driver(ctx, cases, name, timeout=3000):
     """-> (events, crashed)"""
     cf = ctx.write_ndjson(name + "_cases.ndjson",
-                          [dict(id=c["id"], names=c["names"], t=c["t"], lvl=c["lvl"], lvm=c["lvm"], ord=c.get("ord", ""),
+                          [dict(id=c["id"], names=c["names"], t=c["t"], lvl=c["lvl"], lvm=c["lvm"], ord=c.get("ord", ""), via=c.get("via", ""), long=c.get("long", 0),
                                 lines=[dict(nm=l["nm"], line=l["line"], rel=l.get("rel", ""), ref=l.get("ref", -1))
                                        for l in c["lines"]]) for c in cases])
     tf = os.path.join(ctx.out, name + "_trace.ndjson")
